@@ -15,8 +15,10 @@ import traceback
 from vf import harness, known
 
 VERIF = pathlib.Path(__file__).resolve().parent.parent
-EVIDENCE_DIR = VERIF / "evidence"
-REPLAY_DIR = VERIF / "replays"
+# the registered commands write to /verif/evidence; sensitivity runs against scratch copies of the
+# repo redirect both directories so that they never touch the committed evidence
+EVIDENCE_DIR = pathlib.Path(os.environ.get("VERIF_EVIDENCE_DIR") or VERIF / "evidence")
+REPLAY_DIR = pathlib.Path(os.environ.get("VERIF_REPLAY_DIR") or VERIF / "replays")
 MAX_SAMPLES = 5
 
 
